@@ -546,6 +546,10 @@ fn main() {
     // third pass: the set with one-byte special tokens, on its fragment alphabet (one symbol shorter)
     let space3 = Space { n1: 0, n2: count_strings(FRAGMENT_SETS[2].len(), l2 - 1), n3: 0, chunk: space.chunk };
     if let Some(n) = run.describe_unit() {
+        if n >= space.units() + space2.units() + space3.units() {
+            println!("{}", json!({"long_phase_length_index": n - space.units() - space2.units() - space3.units(), "lengths": tu_verif::enumerate::threshold_lengths(run.pick(8, 10))}));
+            return;
+        }
         if n >= space.units() + space2.units() {
             println!("{}", json!({"special_tokens": SPECIAL_SETS[2], "fragment_strings_chunk": n - space.units() - space2.units(), "chunk": space.chunk}));
             return;
@@ -645,6 +649,38 @@ fn main() {
         }
         run.tick();
     }
+    }
+    // long strings (default special-token set): symbol counts around the powers of two a size
+    // threshold would sit at, repeated patterns of mixed byte widths, with special tokens, with CR LF
+    {
+        VARIANT.store(0, std::sync::atomic::Ordering::Relaxed);
+        let (bcfgs, ccfgs) = (byte_cfgs(), char_cfgs());
+        let lens = tu_verif::enumerate::threshold_lengths(run.pick(8, 10));
+        run.bounds.insert("long_phase".into(), json!(format!("symbol counts {lens:?} x 5 repeated patterns x every tokenizer config x ignore_special_tokens")));
+        let unit_l = space.units() + space2.units() + space3.units();
+        let mut subjects: Option<(Vec<ByteSubject>, Vec<CharSubject>)> = None;
+        for (k, n) in lens.iter().enumerate() {
+            if !run.unit(unit_l + k as u64) {
+                continue;
+            }
+            if subjects.is_none() {
+                subjects = Some((bcfgs.iter().filter_map(|c| build_byte(&mut run, c)).collect(), ccfgs.iter().filter_map(|c| build_char(&mut run, c)).collect()));
+            }
+            let (bytes, chars) = subjects.as_ref().unwrap();
+            for pat in [&["a"][..], &["a", "ä", "😀"][..], &["<pad>", "a"][..], &["\r", "\n", "a", "\u{301}"][..], &["a", "Z", "~", " "][..]] {
+                let s = tu_verif::enumerate::repeat_symbols(pat, *n);
+                let p = Prepared::new(&s);
+                for ign in [false, true] {
+                    for sub in bytes {
+                        check_byte(&mut run, sub, &p, ign);
+                    }
+                    for sub in chars {
+                        check_char(&mut run, sub, &p, ign);
+                    }
+                }
+            }
+            run.tick();
+        }
     }
     run.count_n("strings-with-a-parsed-special-token", parsed_specials);
     run.count_n("strings-with-a-character-outside-the-char-alphabet", unknowns);
